@@ -177,7 +177,7 @@ func C03(tier string) int {
 				tweak: func(a *ap.App) { a.OnFollow = beh }})
 		}
 	}
-	res.Rule = fmt.Sprintf("outbox inputs {bare Note, bare Article, Create with 1..%d objects, Like/Announce/Update/Add with an embedded object, Follow} x hidden-recipient option {none, bto IRI, bcc IRI, bto embedded actor, bto+bcc lists} independently on the activity and on every embedded object x to {absent, IRI} x {client POST with both protocols, client POST social-only, Send with both, Send federating-only}; inbox Follow with each option under auto-accept / auto-reject; GET handler: stored values of every type that has 'object', bto/bcc at object depth 0..3, object given embedded / in a mixed list after an IRI / by IRI; %d delivery runs; oracle: every payload handed to the transport and every handler body is parsed and searched for bto/bcc", 2+map[bool]int{true: 1, false: 0}[res.Thorough()], len(cases))
+	res.Rule = fmt.Sprintf("outbox inputs {bare Note, bare Article, Create with 1..%d objects, Like/Announce/Update/Add with an embedded object, Follow} x hidden-recipient option {none, bto IRI, bcc IRI, bto embedded actor, bto+bcc lists} independently on the activity and on every embedded object x to {absent, IRI} x {client POST with both protocols, client POST social-only, Send with both, Send federating-only}; inbox Follow with each option under auto-accept / auto-reject; every input with hidden recipients again under 5 application-data variants (sender record without inbox / minimal, sender's or all recipients' inboxes stored by the application, hidden recipients unreachable); GET handler: stored values of every type that has 'object', bto/bcc at object depth 0..3, object given embedded / in a mixed list after an IRI / by IRI; %d delivery runs; oracle: every payload handed to the transport and every handler body is parsed and searched for bto/bcc", 2+map[bool]int{true: 1, false: 0}[res.Thorough()], len(cases))
 	var mu sync.Mutex
 	chunk := 300
 	parallel((len(cases)+chunk-1)/chunk, func(ci int) {
@@ -270,7 +270,10 @@ func C03(tier string) int {
 			url = inbox(Alice)
 		}
 		sc := &Scenario{Name: c.name, Kind: c.kind, Entry: c.entry, URL: url, Body: c.body, Tweak: c.tweak}
-		type viol struct{ key, what string; rep M }
+		type viol struct {
+			key, what string
+			rep       M
+		}
 		var vs []viol
 		n := 0
 		e := &mc.Explorer{}
@@ -301,6 +304,73 @@ func C03(tier string) int {
 			res.Violate(v.key, v.what, v.rep)
 		}
 	})
+	// ---- configuration variants: whatever the application's data looks like, a payload that is handed
+	// to the transport carries no bto/bcc (a run that fails and delivers nothing is fine) ----
+	variants := []struct {
+		name  string
+		tweak func(a *ap.App)
+	}{
+		{"sender-record-without-inbox", func(a *ap.App) { d := person(Alice); delete(d, "inbox"); a.PutDoc(d) }},
+		{"sender-record-is-a-service-with-inbox-only", func(a *ap.App) { a.PutDoc(Doc("Service", Alice, "inbox", Alice+"/inbox")) }},
+		{"sender-inbox-stored-by-application", func(a *ap.App) { a.StoredInbox[Alice] = true }},
+		{"all-recipient-inboxes-stored", func(a *ap.App) {
+			for _, id := range []string{Carol, Dave, Erin} {
+				a.StoredInbox[id] = true
+			}
+		}},
+		{"hidden-recipients-unreachable", func(a *ap.App) { delete(a.Remote, Erin); delete(a.Remote, Dave) }},
+	}
+	var varCases []c03case
+	for _, c := range cases {
+		if len(c.hidden) > 0 && c.kind != ap.SocialOnly {
+			varCases = append(varCases, c)
+		}
+	}
+	nVar := 0
+	parallel(len(variants), func(vi int) {
+		v := variants[vi]
+		type viol struct {
+			key, what string
+			rep       M
+		}
+		var vs []viol
+		delivered := 0
+		for _, c := range varCases {
+			c := c
+			url := outbox(Alice)
+			if c.entry == "PostInbox" {
+				url = inbox(Alice)
+			}
+			sc := &Scenario{Name: c.name, Kind: c.kind, Entry: c.entry, URL: url, Body: c.body, Tweak: func(a *ap.App) {
+				if c.tweak != nil {
+					c.tweak(a)
+				}
+				v.tweak(a)
+			}}
+			out := sc.Exec(mc.NewExec(nil), false)
+			if out.Panic != nil {
+				continue
+			}
+			for _, d := range out.App.Deliveries {
+				delivered++
+				var pm interface{}
+				json.Unmarshal(d.Payload, &pm)
+				if leaks := findHidden(pm, "", false, 0); len(leaks) > 0 {
+					vs = append(vs, viol{fmt.Sprintf("hidden-recipient-in-payload|configuration|%s", v.name),
+						fmt.Sprintf("%s with %s: payload carries %v: %s", c.name, v.name, leaks, string(d.Payload)), M{"check": "C03", "case": c.name, "body": c.body, "variant": v.name}})
+				}
+			}
+		}
+		mu.Lock()
+		defer mu.Unlock()
+		res.Evaluations += len(varCases)
+		nVar += len(varCases)
+		res.Outcomes[fmt.Sprintf("variant:%s:deliveries=%d", v.name, delivered)]++
+		for _, x := range vs {
+			res.Violate(x.key, x.what, x.rep)
+		}
+	})
+	res.Extra["configuration_variant_runs"] = nVar
 	res.Extra["single_fault_cases"] = len(faultCases)
 	res.Sample(M{"case": cases[len(cases)/3].name, "body": cases[len(cases)/3].body})
 	res.Sample(M{"case": cases[len(cases)-1].name, "body": cases[len(cases)-1].body})
